@@ -2889,6 +2889,7 @@ bn_calc_naf(bn_p bn, size_t wnd_bits, size_t naf_arr_size, int8_t *naf_arr,
 	register bn_digit_t mask;
 	register int8_t itm;
 	register uint8_t sign_bit;
+	bn_digit_t carry;
 
 	if (NULL == bn || 2 > wnd_bits || NULL == naf_arr)
 		return (EINVAL);
@@ -2902,6 +2903,7 @@ bn_calc_naf(bn_p bn, size_t wnd_bits, size_t naf_arr_size, int8_t *naf_arr,
 	}
 
 	while (0 == bn_is_zero(&tm)) {
+		carry = 0;
 		if (0 != (tm.num[0] & 1)) { /* Is odd? */
 			/* Get wnd_bits bits, convert to +-(wnd_bits/2). */
 #if 1
@@ -2930,7 +2932,7 @@ bn_calc_naf(bn_p bn, size_t wnd_bits, size_t naf_arr_size, int8_t *naf_arr,
 			}
 #endif
 			if (itm < 0) {
-				bn_add_digit(&tm, (bn_digit_t)-itm, NULL);
+				bn_add_digit(&tm, (bn_digit_t)-itm, &carry);
 			} else {
 				bn_sub_digit(&tm, (bn_digit_t)itm, NULL);
 			}
@@ -2939,6 +2941,10 @@ bn_calc_naf(bn_p bn, size_t wnd_bits, size_t naf_arr_size, int8_t *naf_arr,
 			naf_arr[i] = 0;
 		}
 		bn_r_shift(&tm, 1); // >> 1
+		if (0 != carry) { /* bn use all BN_BIT_LEN bits, no room for
+				   * the carry: it is the top bit after shift. */
+			bn_bit_set(&tm, ((tm.count * BN_DIGIT_BITS) - 1), 1);
+		}
 		i ++;
 	}
 	memset(&naf_arr[i], 0x00, (naf_arr_size - i));
